@@ -318,7 +318,7 @@ func (g *gen) genEvent(ws uint64, via string) (*eventSpec, []string) {
 				ev.Updates[i].Refs[k] = pickRef()
 			}
 			if ev.Updates[i].SetActive != 0 {
-				ev.Updates[i].Refs = [2]uint64{}
+				ev.Updates[i].Refs = [3]uint64{}
 				continue
 			}
 			if ev.Updates[i].Refs[0] == 0 && ev.Updates[i].Refs[1] == 0 {
@@ -339,6 +339,19 @@ func (g *gen) genEvent(ws uint64, via string) (*eventSpec, []string) {
 		if withArg && len(ev.Creates) > 0 && r.Chance(1, 5) {
 			ev.Creates[r.Intn(len(ev.Creates))].Refs[r.Intn(2)] = kit.Pick(r, argRaw)
 			tags = append(tags, "cud-ref-to-arg-id")
+		}
+	}
+	// a plain RecordID field of an argument row pointing outside the argument: to a raw ID declared by a CUD row of
+	// the same event, or to a raw ID nobody declares (validation looks at the argument's reference fields only)
+	if withArg && r.Chance(1, 25) {
+		rows := argRows(ev.Arg)
+		x := rows[r.Intn(len(rows))]
+		if len(ev.Creates) > 0 && ev.Creates[0].ID <= maxRaw && r.Chance(2, 3) {
+			x.Refs[2] = ev.Creates[r.Intn(len(ev.Creates))].ID
+			tags = append(tags, "arg-plain-field-to-cud-id")
+		} else {
+			x.Refs[2] = kit.Pick(r, []uint64{777, 65535, 999})
+			tags = append(tags, "arg-plain-field-unknown-raw")
 		}
 	}
 	if ev.Sync {
@@ -581,9 +594,14 @@ func observe(v *wsView, ev *eventSpec) []string {
 		}
 	}
 	isRaw := func(x uint64) bool { return x >= 1 && x <= maxRaw }
+	for i, a := range arg {
+		if p := a.Refs[2]; isRaw(p) && !argRaw[p] && i < len(o.Arg) && o.Arg[i].Refs[2] == 0 {
+			tags = append(tags, "F46:argument-plain-recordid-field-nulled")
+		}
+	}
 	for _, rows := range [][]rowSpec{o.Creates, o.Updates} {
 		for _, c := range rows {
-			for _, x := range []uint64{c.Parent, c.Refs[0], c.Refs[1]} {
+			for _, x := range []uint64{c.Parent, c.Refs[0], c.Refs[1], c.Refs[2]} {
 				if isRaw(x) && argRaw[x] {
 					tags = append(tags, "F12:cud-reference-to-argument-raw-id-stored-raw")
 				}
@@ -771,7 +789,7 @@ func nontrivial(sc *scenario) bool {
 			rows = append(rows, ev.Creates...)
 			rows = append(rows, ev.Updates...)
 			for _, x := range rows {
-				for _, v := range []uint64{x.Parent, x.Refs[0], x.Refs[1]} {
+				for _, v := range []uint64{x.Parent, x.Refs[0], x.Refs[1], x.Refs[2]} {
 					if v >= 1 && v <= maxRaw {
 						return true
 					}
